@@ -19,6 +19,7 @@ def main():
     seed = int(os.environ.get('VERIF_SEED', '0') or 0)
     prop = a.prop.upper()
     warnings.filterwarnings('ignore')
+    rp = json.load(open(a.replay)) if a.replay else None     # read before Result() clears stale replays of this property
     res = common.Result(prop, a.tier, seed)
     res.trusted = list(common.GLOBAL_TRUSTED)
     try:
@@ -32,7 +33,6 @@ def main():
         res.oblige('rainflow extension builds from extension.pyx', False, repr(e))
     try:
         if a.replay:
-            rp = json.load(open(a.replay))
             return mod.replay(res, rp)
         mod.run(res)
     except Exception as e:   # the machinery itself broke: never report OK
